@@ -20,6 +20,8 @@ def ph_grid(tier):
     for pk in T.PKA.values():
         g.update((pk - 1e-6, pk, pk + 1e-6))
     g.update((-1e-9, 0.0, 1e-9, 14 - 1e-9, 14.0, 14 + 1e-9, 7.4))
+    # every midpoint the isoelectric-point bisection can visit in its first four halvings
+    g.update(14.0 * k / 16 for k in range(1, 16))
     return sorted(g)
 
 
@@ -53,6 +55,12 @@ def check_titration(case, grid):
     def v(key, what, **kw):
         out.append({"key": key, "what": what, "case": dict(case, **kw)})
     o = SP(seq)
+    if case.get("pI_first"):
+        try:
+            o.get_isoelectric_point()      # same object: its result is judged by the pI case, here it is only history
+            calls += 1
+        except Exception:  # noqa
+            pass
     prev = None
     for pH in grid:
         inside = 0.0 <= pH <= 14.0
@@ -186,7 +194,7 @@ def run(tier, seed, t0):
         if 1 <= tot <= n:
             idx += 1
             seq = make_seq(comp, idx)
-            cases.append({"kind": "titration", "seq": seq})
+            cases.append({"kind": "titration", "seq": seq, "pI_first": idx % 2 == 0})
             cases.append({"kind": "pI", "seq": seq})
     sizes = (1, 2, 5, 10, 100, 1000)
     for a in sizes:
@@ -207,7 +215,8 @@ def run(tier, seed, t0):
         PROP, tier, seed, acc, t0,
         rule="state = one sequence: every composition over the 9 behaviour classes {K,R,H,D,E,C,Y,P,other} with total 1..%d "
              "(the pH functions depend on the sequence only through these counts and N), each x a pH grid of %d values "
-             "(-0.5..14.5, every pKa and pKa+-1e-6, 0, 14, +-1e-9 around both ends): get_NCPR/FCR/mean_net_charge/"
+             "(-0.5..14.5, every pKa and pKa+-1e-6, 0, 14, +-1e-9 around both ends, the 15 bisection midpoints 14k/16; for every other "
+             "composition get_isoelectric_point() is called first on the same object): get_NCPR/FCR/mean_net_charge/"
              "fraction_expanding(pH) vs an independent Henderson-Hasselbalch sum, monotone NCPR, |NCPR|<=FCR<=titratable/N, "
              "rejection exactly outside [0,14]; get_isoelectric_point on each of them and on extreme sequences X^a Y^b "
              "(a up to 1000) with charge_at_pH counted (<=400) and the reference mean charge per titratable residue at the "
